@@ -491,6 +491,14 @@ void Router::processActions(void)
     m_transaction_start_time = clock();
     m_abort_transaction = false;
 
+    // Processing the list can queue further actions (connector updates when
+    // attached shapes or junctions move, pin updates when obstacles are
+    // freed).  When transactions are not in use these must not start a
+    // nested processTransaction() on the list that is being processed, so
+    // consolidate actions until this list has been dealt with.
+    const bool consolidateActions = m_consolidate_actions;
+    m_consolidate_actions = true;
+
     std::list<unsigned int> deletedObstacles;
     actionList.sort();
     ActionInfoList::iterator curr;
@@ -657,6 +665,8 @@ void Router::processActions(void)
     }
     // Clear the actionList.
     actionList.clear();
+
+    m_consolidate_actions = consolidateActions;
 }
 
 bool Router::processTransaction(void)
